@@ -422,6 +422,13 @@ func (s *ProofStructure) VerifyProofStructure(g *gabikeys.PublicKey, p *Proof) b
 			return false
 		}
 
+		// The C_i serve as bases of the representation that is verified, so they must be elements of
+		// the multiplicative group: with 0 (or another non-unit) as base the reconstructed
+		// commitments no longer depend on the challenge, and any statement could be "proven".
+		if p.Cs[i].Sign() <= 0 || p.Cs[i].Cmp(g.N) >= 0 || new(big.Int).GCD(nil, nil, p.Cs[i], g.N).Cmp(big.NewInt(1)) != 0 {
+			return false
+		}
+
 		if p.Cs[i].BitLen() > g.N.BitLen() ||
 			uint(p.DResponses[i].BitLen()) > s.ld+g.Params.Lh+g.Params.Lstatzk+1 ||
 			uint(p.VResponses[i].BitLen()) > g.Params.Lm+g.Params.Lh+g.Params.Lstatzk+1 {
